@@ -1,6 +1,6 @@
 (* Proofs/ValidProofs.v — lemmas for C04 (containment / shape half). *)
 From Coq Require Import List NArith Bool Arith Lia.
-From V Require Import Base.Bytes Base.Res Model.Ast Model.Html Model.Xml Gen.Nodes Gen.TableRows
+From V Require Import Base.Bytes Base.Res Model.Ast Model.Html Model.Xml Model.AddChild Gen.Nodes Gen.TableRows Gen.AddChild
   Spec.Shape Spec.HtmlSpec Spec.XmlLex Spec.Valid Proofs.HtmlNest Proofs.XmlProofs.
 Import ListNotations.
 From Coq Require Import Strings.String.
@@ -492,4 +492,85 @@ Proof.
     { apply forallb_forall. intros r Hr. apply in_map_iff in Hr. destruct Hr as [k [<- _]]. apply row_node_ok. }
     reflexivity. }
   unfold tables_ok. cbn [nval tables_ok_in forallb]. rewrite H2. reflexivity.
+Qed.
+
+(* ------------------------------------------------------------------ Parser::add_child *)
+Lemma add_child_contains : forall chain c p,
+  add_child_parent chain c = Ok p -> can_contain p c = true /\ In p chain.
+Proof.
+  induction chain as [|q up IH]; intros c p H; cbn [add_child_parent] in H; [discriminate|].
+  destruct (can_contain q c) eqn:E.
+  - injection H as <-. split; [exact E | left; reflexivity].
+  - destruct (IH c p H) as [A B]. split; [exact A | right; exact B].
+Qed.
+
+(* the ancestors that were skipped (and therefore finalized) cannot contain the child *)
+Lemma add_child_skips : forall chain c p,
+  add_child_parent chain c = Ok p ->
+  exists skipped rest, chain = skipped ++ p :: rest /\ forall q, In q skipped -> can_contain q c = false.
+Proof.
+  induction chain as [|q up IH]; intros c p H; cbn [add_child_parent] in H; [discriminate|].
+  destruct (can_contain q c) eqn:E.
+  - injection H as <-. exists [], up. split; [reflexivity | intros ? []].
+  - destruct (IH c p H) as [sk [rest [-> Hs]]]. exists (q :: sk), rest. split; [reflexivity|].
+    intros r [<-|Hr]; [exact E | apply Hs; exact Hr].
+Qed.
+
+Lemma add_child_some_ancestor : forall chain c,
+  (exists q, In q chain /\ can_contain q c = true) -> exists p, add_child_parent chain c = Ok p.
+Proof.
+  induction chain as [|q up IH]; intros c [r [Hr Hc]]; [destruct Hr|].
+  cbn [add_child_parent]. destruct (can_contain q c) eqn:E; [eexists; reflexivity|].
+  apply IH. destruct Hr as [<-|Hr]; [rewrite Hc in E; discriminate|]. exists r. auto.
+Qed.
+
+Definition site_ok (s : string * string * kind) : bool :=
+  match direct_parent (snd s) with
+  | Some p => can_contain p (snd s)
+  | None => can_contain KDocument (snd s)
+  end.
+
+(* audited call list (Gen/AddChild.v): every value passed to add_child is either accepted by a
+   Document, or is one of the six kinds whose call site passes the parent made for it *)
+Lemma add_child_sites_ok : forallb site_ok add_child_sites = true.
+Proof. vm_compute. reflexivity. Qed.
+
+Definition expected_add_child_kinds : list kind :=
+  [KFrontMatter; KMultilineBlockQuote; KBlockQuote; KHeading; KCodeBlock; KHtmlBlock; KThematicBreak;
+   KFootnoteDefinition; KList; KItem; KCodeBlock; KAlert; KDescriptionList; KDescriptionItem;
+   KDescriptionTerm; KDescriptionDetails; KDescriptionItem; KDescriptionDetails; KParagraph;
+   KTableRow; KTableCell; KTableRow; KTableCell; KTableCell].
+
+Lemma add_child_sites_audit : map snd add_child_sites = expected_add_child_kinds.
+Proof. vm_compute. reflexivity. Qed.
+
+(* the loop never runs past the root: at every audited call site, if the ancestor chain ends in the
+   Document (free kinds) resp. starts with the parent made for the child (direct kinds), add_child
+   returns a parent that may contain the child *)
+Lemma add_child_never_past_root : forall s chain,
+  In s add_child_sites ->
+  (match direct_parent (snd s) with
+   | Some p => exists up, chain = p :: up
+   | None => exists up, chain = up ++ [KDocument]
+   end) ->
+  exists p, add_child_parent chain (snd s) = Ok p /\ can_contain p (snd s) = true.
+Proof.
+  intros s chain Hs Hc.
+  pose proof add_child_sites_ok as F. rewrite forallb_forall in F. specialize (F s Hs). unfold site_ok in F.
+  assert (exists p, add_child_parent chain (snd s) = Ok p) as [p Hp].
+  { apply add_child_some_ancestor. destruct (direct_parent (snd s)) as [d|].
+    - destruct Hc as [up ->]. exists d. split; [left; reflexivity | exact F].
+    - destruct Hc as [up ->]. exists KDocument. split; [apply in_or_app; right; left; reflexivity | exact F]. }
+  exists p. split; [exact Hp|]. apply (add_child_contains _ _ _ Hp).
+Qed.
+
+(* appending under the parent add_child returns keeps a valid tree valid: stated on the rose tree
+   as: adding a leaf child of kind c at the end of a node whose kind may contain c preserves valid *)
+Lemma valid_append_leaf : forall v sp ch c csp,
+  valid (Node v sp ch) = true -> can_contain (kind_of v) (kind_of c) = true ->
+  valid (Node v sp (ch ++ [Node c csp []])) = true.
+Proof.
+  intros v sp ch c csp H Hc. rewrite valid_node in *. intros x Hx.
+  apply in_app_or in Hx. destruct Hx as [Hx|[<-|[]]]; [apply H; exact Hx|].
+  split; [exact Hc | reflexivity].
 Qed.
